@@ -84,9 +84,9 @@ def _cond(ex, lo, hi, upvars, arg_names):
     if isinstance(u, tuple) and u and u[0] == "discr":
         inner = u[1]
         if isinstance(inner, tuple) and inner[0] == "call" and (inner[1] or "").endswith("Try>::branch"):
-            x = shape.pp(inner[2][0], arg_names) if inner[2] else "?"
+            x = pp_x(inner[2][0], arg_names) if inner[2] else "?"
             return ("ok(%s)" if (lo, hi) == (0, 0) else "fail(%s)" if (lo, hi) == (1, 1) else "branch(%s) in [%s,%s]" % ("%s", lo, hi)) % x
-    s = shape.pp(ex, arg_names)
+    s = pp_x(ex, arg_names)
     return "%s in [%s,%s]" % (s, lo, hi)
 
 
@@ -353,6 +353,20 @@ def pp_x(e, arg_names=None):
                 return ("const", _pp_phi(x, arg_names), "phi")
             if x[0] == "str" and len(x) == 2:
                 return ("const", "str" + repr(x[1]), "str")
+            if x[0] == "call" and len(x) >= 5 and x[4] and (x[1] or "").endswith("<impl str>::parse"):
+                m = re.search(r"Result<([^,<>]+),", str(x[4]))
+                if m:           # str::parse::<T>: the target type is part of what is computed
+                    return ("call", "parse_" + m.group(1).split("::")[-1], tuple(prep(a) for a in x[2]), None, None)
+            if x[0] == "cindex" and len(x) == 4:
+                return ("const", "%s[%s%s]" % (pp_x(x[1], arg_names), "-" if x[3] else "", x[2]), "cindex")
+            if x[0] == "fnitem" and len(x) == 2:
+                return ("const", "fn:" + shape.short_callee(x[1]), "fnitem")
+            if x[0] == "constx" and len(x) == 3:
+                return ("const", str(x[1]), "constx")
+            if x[0] == "proj" and len(x) == 3:
+                m = re.match(r"^\{'sub_from': (\d+), 'sub_to': (\d+), 'from_end': (True|False)\}$", str(x[2]))
+                sfx = ("[%s..%s%s]" % (m.group(1), "-" if m.group(3) == "True" else "", m.group(2))) if m else str(x[2])
+                return ("const", "%s%s" % (pp_x(x[1], arg_names), sfx), "proj")
             return tuple(prep(y) if isinstance(y, tuple) else y for y in x)
         return x
     return re.sub(r"\{closure@[^}]*\}", "{closure}", shape.pp(clean(prep(e)), arg_names))
